@@ -25,7 +25,7 @@ def render_comp(c, root):
     terms = []
     if r["bad"]:
         terms.append("$undefined_string")
-    terms.append("$a" if r["tok"] else "true")
+    terms.append(("not $a" if r.get("neg") else "$a") if r["tok"] else "true")
     terms += r["deps"]
     terms += [MODCALL[m] for m in r["mods"]]
     terms += ["any of (%s*)" % p for p in r["wild"]]
@@ -62,7 +62,8 @@ class C20(Prop):
     KF = {}
     RULE = ("rule files with include directives are materialised in a directory tree under .work (trees, DAGs with "
             "shared leaves, the same directive text in files of different directories meaning different (or the same) "
-            "files within one graph and across calls, chains of 14..19 nested includes, cycles of length 1..4, missing files, directories, "
+            "files within one graph and across calls, global rules with strings (`$a` / `not $a` over different tokens) "
+            "before and after a directive and in its target, chains of 14..19 nested includes, cycles of length 1..4, missing files, directories, "
             "non-UTF-8 and unparsable files, `../`, `./`, detours through existing and missing directories, double and "
             "trailing slashes, absolute paths), compiled by the real compiler in a child process in the three "
             "resolution modes (file system, include callback given as a table with decoy entries, includes disabled), "
@@ -84,6 +85,9 @@ class C20(Prop):
         if rng.chance(1, 10):
             r["global"] = True
             r["private"] = rng.chance(1, 6)
+            if rng.chance(1, 2):            # a global rule with a string of its own (sometimes negated)
+                r["tok"] = rng.choice(toks)
+                r["neg"] = rng.chance(1, 3)
             return r
         if rng.chance(1, 2):
             r["tok"] = rng.choice(toks)
@@ -326,11 +330,68 @@ class C20(Prop):
         return {"mode": "fs", "shape": "samename", "cwd": [], "dirs": dirs, "files": files, "cb": [], "calls": calls,
                 "scan": " ".join(t for t in toks if rng.chance(1, 2)), "use_cb": False}
 
+    def gen_globals(self, rng):
+        """Global rules WITH STRINGS on both sides of a directive: before it in the including document and in the
+        target (and deeper), with conditions `$a` / `not $a` over different tokens, so that a scan tells which rule
+        is evaluated with which string; file-system and callback mode."""
+        toks = ["tokA", "tokB", "tokC", "tokD"]
+        mode = rng.choice(["fs", "fs", "callback"])
+        depth = rng.range(1, 3)
+        k = [0]
+
+        def grule(name):
+            r = self.gen_rule(rng, name, [], [], toks)
+            r.update({"global": True, "private": rng.chance(1, 8), "bad": False, "deps": [], "mods": [], "wild": [],
+                      "tok": toks[k[0] % len(toks)], "neg": rng.chance(1, 2)})
+            k[0] += 1
+            return {"rule": r}
+
+        def nrule(name):
+            r = self.gen_rule(rng, name, [], [], toks)
+            r.update({"global": False, "bad": False, "deps": [], "mods": [], "wild": [], "tok": rng.choice(toks + [None]),
+                      "neg": rng.chance(1, 4)})
+            return {"rule": r}
+        files = []
+        for lvl in range(depth + 1):
+            cs = []
+            layout = rng.below(4)
+            if layout != 3:
+                cs.append(grule("g%d" % lvl))                 # a global rule with a string BEFORE the directive
+            if layout == 1:
+                cs.append(grule("h%d" % lvl))
+            if rng.chance(1, 2):
+                cs.append(nrule("n%d" % lvl))
+            if lvl < depth:
+                cs.append({"inc": "f%d.yar" % (lvl + 1)})
+            if layout in (2, 3):
+                cs.append(grule("k%d" % lvl))                 # and / or after it
+            cs.append(nrule("m%d" % lvl))
+            files.append({"path": ["f%d.yar" % lvl], "doc": {"t": "text", "cs": cs}})
+        cb = []
+        if mode == "callback":
+            cb = [{"name": "f%d.yar" % i, "cur_any": True, "cur": None, "ns": None, "doc": files[i]["doc"]}
+                  for i in range(1, depth + 1)]
+        calls = [{"kind": "file", "path": "f0.yar", "ns": rng.choice([None, "ns1"])}]
+        if rng.chance(1, 3):
+            calls.append({"kind": "str", "doc": {"t": "text", "cs": [nrule("top")]}, "ns": calls[0]["ns"]})
+        present = [t for t in toks if rng.chance(1, 2)]
+        if rng.chance(2, 3):
+            # a scan on which every global rule holds when it is evaluated with its OWN string
+            want = {}
+            for f in files:
+                for c in f["doc"]["cs"]:
+                    if "rule" in c and c["rule"]["global"]:
+                        want.setdefault(c["rule"]["tok"], set()).add(not c["rule"]["neg"])
+            if all(len(v) == 1 for v in want.values()):
+                present = [t for t in toks if (True in want[t] if t in want else rng.chance(1, 2))]
+        return {"mode": mode, "shape": "globals", "cwd": [], "dirs": [], "files": files, "cb": cb, "calls": calls,
+                "scan": " ".join(present), "use_cb": mode == "callback"}
+
     def generate(self, ctx, rng, n):
         out = []
         for i in range(n):
             r = rng.fork("c%d" % i)
-            out.append(self.gen_samename(r) if i % 8 == 3 else self.gen_case(r))
+            out.append(self.gen_samename(r) if i % 8 == 3 else self.gen_globals(r) if i % 8 == 6 else self.gen_case(r))
         return out
 
     def budget(self, tier):
@@ -492,7 +553,7 @@ class C20(Prop):
 
     # ---------------------------------------------------------------- Coq term
     def g_rule(self, r, scan):
-        val = (r["tok"] is None) or (r["tok"] in scan)
+        val = (r["tok"] is None) or ((r["tok"] in scan) != bool(r.get("neg")))
         return ("{| r_name := %s; r_global := %s; r_private := %s; r_deps := %s; r_mods := %s; r_wild := %s; "
                 "r_bad := %s; r_val := %s |}" % (gstr(r["name"]), gbool(r["global"]), gbool(r["private"]),
                                                  glist([gstr(x) for x in r["deps"]]), glist([gstr(x) for x in r["mods"]]),
